@@ -109,6 +109,22 @@ func VerifRunCluster(cs VerifClusterCase, hook VerifResHook) (res map[string]any
 			h()
 		}
 	}
+	var regenFired []bool
+	epoch := 0
+	doSpy := func(w int) string {
+		epoch++
+		tag := internal.VerifTag(cs.Watchers[w].Key, cs.Watchers[w].Exact)
+		etcd.Mark(tag, "epoch", epoch)
+		sp := &internal.VerifSpy{E: etcd, Tag: tag, Ep: epoch}
+		if err := internal.GetRegistry().Monitor(eps(), cs.Watchers[w].Key, cs.Watchers[w].Exact, sp); err != nil {
+			return err.Error()
+		}
+		spies[w] = sp
+		mu.Lock()
+		nlist[w]++
+		mu.Unlock()
+		return ""
+	}
 	var doSub func(sid, w int, mode string, excl bool) string
 	doSub = func(sid, w int, mode string, excl bool) string {
 		wk := cs.Watchers[w]
@@ -226,13 +242,95 @@ func VerifRunCluster(cs VerifClusterCase, hook VerifResHook) (res map[string]any
 		switch name {
 		case "spy":
 			w := geti(1)
-			sp := &internal.VerifSpy{E: etcd, Tag: internal.VerifTag(cs.Watchers[w].Key, cs.Watchers[w].Exact)}
-			if err := internal.GetRegistry().Monitor(eps(), cs.Watchers[w].Key, cs.Watchers[w].Exact, sp); err != nil {
-				errs = err.Error()
-			} else {
-				spies[w] = sp
-				nlist[w]++
+			errs = doSpy(w)
+		case "regen":
+			// ["regen", w, hold, batch, between, sid, mode, excl, how]: the watcher of key w gets ONE watch response
+			// carrying the events of `batch`; while its first listener is being called for event number `hold`,
+			// every subscriber of the key is closed (the watcher is removed, its watch cancelled), the keys of
+			// `between` are registered / deleted, and the key is monitored again (new watcher, load, watch) by a new
+			// first listener and subscriber `sid` - how = "in": from inside the callback, "out": by another goroutine
+			// while the callback is held.  Then the callback returns and the OLD watch goroutine goes on with the
+			// rest of its batch.
+			w, hold := geti(1), geti(2)
+			var batch, between [][]string
+			if err := json.Unmarshal(parts[3], &batch); err != nil {
+				panic(err)
 			}
+			if err := json.Unmarshal(parts[4], &between); err != nil {
+				panic(err)
+			}
+			sid, mode, excl, how := geti(5), gets(6), getb(7), gets(8)
+			apply := func(ms [][]string) {
+				for _, m := range ms {
+					if m[0] == "put" {
+						etcd.VPut(m[1], m[2])
+					} else {
+						etcd.VDelete(m[1])
+					}
+				}
+			}
+			script := func() {
+				mu.Lock()
+				var mine []int
+				for _, x := range order {
+					if subs[x].w == w {
+						mine = append(mine, x)
+					}
+				}
+				mu.Unlock()
+				for _, x := range mine {
+					doUnsub(x)
+				}
+				internal.GetRegistry().Unmonitor(eps(), cs.Watchers[w].Key, cs.Watchers[w].Exact, spies[w])
+				delete(spies, w)
+				nlist[w]--
+				apply(between)
+				doSpy(w)
+				doSub(sid, w, mode, excl)
+			}
+			firedRegen := false
+			started, finished := make(chan struct{}), make(chan struct{})
+			old := spies[w]
+			oldTag := old.Tag
+			old.Arm(hold, func() {
+				close(started)
+				defer close(finished)
+				if how == "out" {
+					done := make(chan struct{})
+					go func() {
+						defer close(done)
+						script()
+					}()
+					<-done
+				} else {
+					script()
+				}
+			})
+			etcd.VPause()
+			apply(batch)
+			etcd.VResume()
+			for !firedRegen {
+				select {
+				case <-started:
+					<-finished
+					firedRegen = true
+				case <-time.After(20 * time.Millisecond):
+				}
+				if !firedRegen && etcd.QuiesceLoose([]string{oldTag}, 100*time.Millisecond) {
+					select {
+					case <-started:
+						<-finished
+						firedRegen = true
+					default:
+					}
+					break
+				}
+			}
+			if !firedRegen { // the batch made too few calls: the same is done after it
+				old.Hook = nil
+				script()
+			}
+			regenFired = append(regenFired, firedRegen)
 		case "unspy":
 			w := geti(1)
 			internal.GetRegistry().Unmonitor(eps(), cs.Watchers[w].Key, cs.Watchers[w].Exact, spies[w])
@@ -270,8 +368,10 @@ func VerifRunCluster(cs VerifClusterCase, hook VerifResHook) (res map[string]any
 			injected := false
 			if name == "spyj" {
 				w := geti(1)
-				sp := &internal.VerifSpy{E: etcd, Tag: internal.VerifTag(cs.Watchers[w].Key, cs.Watchers[w].Exact)}
-				sp.Hook = func() { injected = true; inject() }
+				epoch++
+				sp := &internal.VerifSpy{E: etcd, Tag: internal.VerifTag(cs.Watchers[w].Key, cs.Watchers[w].Exact), Ep: epoch}
+				etcd.Mark(sp.Tag, "epoch", epoch)
+				sp.Arm(0, func() { injected = true; inject() })
 				if err := internal.GetRegistry().Monitor(eps(), cs.Watchers[w].Key, cs.Watchers[w].Exact, sp); err != nil {
 					errs = err.Error()
 				} else {
@@ -475,7 +575,9 @@ func VerifRunCluster(cs VerifClusterCase, hook VerifResHook) (res map[string]any
 		mu.Unlock()
 		inj := injectedRec
 		injectedRec = nil
-		steps = append(steps, map[string]any{"injected": inj, "fired": f, "log": etcd.TakeLog(), "stuck": stuck, "paused": paused, "err": errs,
+		rf := regenFired
+		regenFired = nil
+		steps = append(steps, map[string]any{"regen": rf, "injected": inj, "fired": f, "log": etcd.TakeLog(), "stuck": stuck, "paused": paused, "err": errs,
 			"rev": etcd.Rev(), "live": etcd.Live(), "state": internal.VerifClusterState(hosts...), "subs": sobs})
 	}
 	return map[string]any{"id": cs.ID, "steps": steps}
